@@ -13,8 +13,10 @@ HDR = """from Reduino import target
 target("COM3")
 from Reduino.Communication import SerialMonitor
 from Reduino.Displays import LCD
+from Reduino.Core import analog_read
 
 mon = SerialMonitor(9600)
+sel = analog_read(0)
 """
 
 WORDS = ["", "A", "Hi", "Temp:", "hello world", "0123456789", "Setup complete", "x", "  pad  ", "#hash #", "a,b;c", "UPPER lower 123", "!?*+-/=<>()[]"]
@@ -74,6 +76,7 @@ def gen(rng, hazards=()):
     ops = []
     nvar = [0]
     body = []
+    wrap_from = None
 
     def arg(v):
         if rng.random() < 0.3:
@@ -88,6 +91,19 @@ def gen(rng, hazards=()):
 
     k = 0
     for _ in range(rng.randint(4, 16)):
+        mark = len(body)
+        if mark and wrap_from is not None:
+            # the previous call (and its marker) go inside a block whose condition is only known at run time
+            # (`sel` is an ADC reading: 0 here) - taken, not taken, or a one-iteration loop
+            head = rng.choice(["if sel > 5:", "if sel == 0:", "if sel == 0:", "for rep in range(1):", "if sel > 5:\n    pass\nelse:"])
+            inner = body[wrap_from:]
+            del body[wrap_from:]
+            body += head.split("\n") + ["    " + x for x in inner]
+            if head == "if sel > 5:":
+                # never executed: neither the call nor its markers happen
+                dropped = len([x for x in inner if x.startswith("mon.write(\"@")])
+                del ops[len(ops) - dropped:]
+        wrap_from = len(body) if rng.random() < 0.2 else None
         lcd = rng.choice(lcds)
         nm, cols, rows = lcd["name"], lcd["cols"], lcd["rows"]
         kind = rng.choice(["write", "write", "line", "line", "message", "clear", "progress", "progress", "display", "backlight", "brightness", "glyph"])
